@@ -605,8 +605,9 @@ pub(crate) fn add(ctx: &mut TulispContext) {
     fn dotimes(ctx: &mut TulispContext, args: &TulispObject) -> Result<TulispObject, Error> {
         destruct_bind!((spec &rest body) = args);
         destruct_bind!((var count &optional result) = spec);
+        let count = ctx.eval(&count)?.as_int()?;
         var.set_scope(TulispObject::from(0))?;
-        for counter in 0..count.as_int()? {
+        for counter in 0..count {
             var.set_unchecked(TulispObject::from(counter));
             if let Err(e) = ctx.eval_progn(&body) {
                 var.unset()?;
